@@ -6,7 +6,11 @@ Property theorems only.  The model of the process-global state and of the public
 `Lemmas/World.lean`.
 
 What is modelled: the module-level month table with its aliasing, the two `memoize` closures of
-`pybtex/bibtex/builtins.py`, `errors.strict / error_code / captured_errors`, `_RUNTIME_PLUGINS`.
+`pybtex/bibtex/builtins.py` and the `format.name$` built-in in front of them, `errors.strict /
+error_code / captured_errors`, `_RUNTIME_PLUGINS`, `CommandLine.main` (the entry point that writes
+`strict` and reads `error_code`), and a reader's own state (macro copy, database, wanted keys,
+unnamed-entry counter).  The model follows proposed_fixes/C18-1 … C18-4; for each repaired behaviour
+the pinned one stays expressible and its failure is proved (`…_neg_aliased`, `…_neg_pinned`).
 What is assumed: every other piece of pybtex reaches that state only through `report_error`,
 `format.name$`, `find_plugin` and a fresh `.bib` reader (`Fns`, `Prog`).  "Inputs never modified" is a
 claim about Python object identity that a pure model cannot state: it is checked on the
@@ -59,9 +63,11 @@ wrapper's own bookkeeping (`popleft`, `del`) never fails. -/
 theorem C18_caches_invariant (F : Fns) (h : List Call) :
     CachesInv F (run F World.fresh h) ∧
     ((∀ n f, F.formatOne n f ≠ .internal) →
-      ∀ key, (formatNameCall F (run F World.fresh h) key).2 ≠ .internal) :=
+      ∀ key, (formatNameBuiltin F (run F World.fresh h) key).2 ≠ .internal ∧
+             (formatNameCall F (run F World.fresh h) key).2 ≠ .internal) :=
   ⟨run_inv (cachesInv_fresh F) h,
-   fun hF key => formatNameCall_not_internal F hF (run_inv (cachesInv_fresh F) h) key⟩
+   fun hF key => ⟨formatNameBuiltin_not_internal F hF (run_inv (cachesInv_fresh F) h) key,
+                  formatNameCall_not_internal F hF (run_inv (cachesInv_fresh F) h) key⟩⟩
 
 /-! ## the month table -/
 
@@ -154,7 +160,7 @@ theorem C18_deterministic (F : Fns) (w1 w2 : World) (c : Call)
     (step F w1 c).1.months = (step F w2 c).1.months ∧ (step F w1 c).1.strict = (step F w2 c).1.strict ∧
     (step F w1 c).1.captured = (step F w2 c).1.captured ∧ (step F w1 c).1.plugins = (step F w2 c).1.plugins ∧
     CachesInv F (step F w1 c).1 ∧ CachesInv F (step F w2 c).1 := by
-  obtain ⟨hr, hs⟩ := step_sim (F := F) ⟨hm, hst, hc, hp, h1, h2⟩ c
+  obtain ⟨hr, hs⟩ := step_sim (F := F) (ec := false) ⟨hm, hst, hc, hp, h1, h2, fun h => nomatch h⟩ c
   exact ⟨hr, hs.months, hs.strict, hs.captured, hs.plugins, hs.inv1, hs.inv2⟩
 
 /-- the hypotheses of `C18_deterministic` hold of a fresh world and the world after a history that
@@ -201,5 +207,209 @@ theorem C18_history_independent_nonvacuous :
        .raised (.pluginNotFound "pybtex.style.formatting".toList "unsrt".toList)] ∧
     (step toyFns (run toyFns World.fresh h) p).2 = .captured (.str "A, B{ll}".toList) [.invalidName "A, B".toList] := by
   decide
+
+/-! ## `format.name$` with a name number outside `1..count` (repair a9f9a7a) -/
+
+/-- A name number outside `1 .. number of names` never reaches the memoised formatter: whatever the
+two caches hold, the built-in reports `there is no name number n` through `report_error` and the
+result is the empty string — collected under `capture()`, raised in strict mode, a warning (and
+`error_code = 2`) otherwise; the formatter's cache and the month table are untouched.  A name number
+inside the range always finds its name: the indexing `_split_names(names)[n - 1]` in the memoised
+body cannot raise `IndexError`, for any integer `n` (also `n ≤ 0`, which Python would read from the
+end of the list). -/
+theorem C18_format_name_out_of_range (F : Fns) (w : World) (hw : CachesInv F w) (key : FmtKey) :
+    (¬ (1 ≤ key.n ∧ key.n ≤ ((F.splitNames key.names).length : Int)) →
+      (formatNameBuiltin F w key).1.fmtCache = w.fmtCache ∧
+      (formatNameBuiltin F w key).1.months = w.months ∧
+      (∀ l, w.captured = some l →
+        (formatNameBuiltin F w key).2 = .val [] ∧
+        (formatNameBuiltin F w key).1.captured = some (l ++ [.noSuchName key.n key.names])) ∧
+      (w.captured = none → w.strict = true →
+        (formatNameBuiltin F w key).2 = .raised (.noSuchName key.n key.names)) ∧
+      (w.captured = none → w.strict = false →
+        (formatNameBuiltin F w key).2 = .val [] ∧ (formatNameBuiltin F w key).1.errorCode = 2)) ∧
+    ((1 ≤ key.n ∧ key.n ≤ ((F.splitNames key.names).length : Int)) →
+      ∃ name, pyIndex (F.splitNames key.names) (key.n - 1) = some name ∧
+        (F.splitNames key.names)[(key.n - 1).toNat]? = some name ∧
+        gFmt F key = F.formatOne name key.fmt) := by
+  constructor
+  · intro hn
+    obtain ⟨sc, _, e⟩ := formatNameBuiltin_eq F hw key
+    rw [e]
+    simp only [builtinAfterSplit, if_neg hn, reportK, report]
+    cases hc : w.captured with
+    | some l =>
+      refine ⟨by first | rfl | trivial, by first | rfl | trivial, ?_, ?_, ?_⟩
+      · intro l' hl'
+        cases hl'
+        exact ⟨by first | rfl | trivial, by first | rfl | trivial⟩
+      · intro h; cases h
+      · intro h; cases h
+    | none =>
+      cases hs : w.strict with
+      | true =>
+        simp only [if_true]
+        refine ⟨by first | rfl | trivial, by first | rfl | trivial, ?_, ?_, ?_⟩
+        · intro l' hl'; cases hl'
+        · intro _ _; first | rfl | trivial
+        · intro _ h; cases h
+      | false =>
+        simp only [Bool.false_eq_true, if_false]
+        refine ⟨by first | rfl | trivial, by first | rfl | trivial, ?_, ?_, ?_⟩
+        · intro l' hl'; cases hl'
+        · intro _ h; cases h
+        · intro _ _; exact ⟨by first | rfl | trivial, by first | rfl | trivial⟩
+  · intro ⟨h1, h2⟩
+    have hlt : (key.n - 1).toNat < (F.splitNames key.names).length := by omega
+    have hnn : ¬ (key.n - 1 < 0) := by omega
+    refine ⟨(F.splitNames key.names)[(key.n - 1).toNat], ?_, ?_, ?_⟩
+    · simp only [pyIndex, if_neg hnn]
+      exact List.getElem?_eq_getElem hlt
+    · exact List.getElem?_eq_getElem hlt
+    · simp only [gFmt, pyIndex, if_neg hnn, List.getElem?_eq_getElem hlt]
+
+/-- name numbers 0, -1 and count+1 of a two-name list: empty string plus one report each, under
+`capture()`; number 2 is the second name -/
+theorem C18_format_name_out_of_range_nonvacuous :
+    let names : Str := "A;B".toList
+    let F : Fns := { toyFns with splitNames := fun s => s.splitOn ';' }
+    let call (n : Int) : Call := .capture (.formatName ⟨names, n, "{ll}".toList⟩)
+    (step F World.fresh (call 0)).2 = .captured (.str []) [.noSuchName 0 names] ∧
+    (step F World.fresh (call (-1))).2 = .captured (.str []) [.noSuchName (-1) names] ∧
+    (step F World.fresh (call 3)).2 = .captured (.str []) [.noSuchName 3 names] ∧
+    (step F World.fresh (call 2)).2 = .captured (.str "B{ll}".toList) [] ∧
+    (step F World.fresh (.formatName ⟨names, 0, "{ll}".toList⟩)).2 = .raised (.noSuchName 0 names) := by
+  decide +kernel
+
+/-! ## command-line entry points called in-process (`CommandLine.main`, proposed fix C18-3) -/
+
+/-- `main()` of a command-line tool (`pybtex-convert`, `pybtex-format`, `pybtex`) called from Python:
+its exit status after ANY history of public calls — earlier `main()` runs that produced warnings
+included — is its exit status in the initial world; it does not depend on the `error_code` the
+process has accumulated; and it leaves `errors.strict` as it found it, whether or not `--strict` was
+given (so that a later API call reports problems exactly as in a fresh interpreter: instance of
+`C18_history_independent`). -/
+theorem C18_cli_main_independent (F : Fns) (w0 : World) (hw : CachesInv F w0) (hcap : w0.captured = none)
+    (h : List Call) (hh : ∀ c ∈ h, c.isPublic = true) (strictOpt : Bool) (c : Call) :
+    (step F (run F w0 h) (.cliMain strictOpt c)).2 = (step F w0 (.cliMain strictOpt c)).2 ∧
+    (∀ n, (step F { w0 with errorCode := n } (.cliMain strictOpt c)).2 = (step F w0 (.cliMain strictOpt c)).2) ∧
+    (c.isPublic = true → (step F w0 (.cliMain strictOpt c)).1.strict = w0.strict ∧
+      (step F w0 (.cliMain strictOpt c)).1.months = w0.months) ∧
+    (∀ p, c.isPublic = true →
+      (step F (run F w0 (h ++ [.cliMain strictOpt c])) p).2 = (step F w0 p).2) := by
+  refine ⟨(step_sim (run_sim hw hcap h hh) _).1, fun n => rfl, fun hc => ?_, fun p hc => ?_⟩
+  · have hf := step_frame F w0 (.cliMain strictOpt c) hc
+    exact ⟨hf.strict, hf.months⟩
+  · refine (step_sim (run_sim hw hcap (h ++ [.cliMain strictOpt c]) ?_) p).1
+    intro c' hc'
+    rcases List.mem_append.1 hc' with hc' | hc'
+    · exact hh c' hc'
+    · simp only [List.mem_singleton] at hc'
+      subst hc'
+      exact hc
+
+/-- three runs of a converter `main()` in one process — clean input, input with an undefined
+macro (a warning: status 2), the clean input again — give the statuses 0, 2, 0; with `--strict` the
+undefined macro is an error (status 1); afterwards `strict` is `True` as in a fresh interpreter and
+an API parse of the undefined macro raises -/
+theorem C18_cli_main_independent_nonvacuous :
+    let good : Doc := [.entry "misc".toList "a".toList [("title".toList, [.lit "T".toList])]]
+    let warn : Doc := [.entry "misc".toList "a".toList [("title".toList, [.ref "nope".toList])]]
+    let h : List Call := [.cliMain false (.parse [good]), .cliMain false (.parse [warn]),
+                          .cliMain false (.parse [good]), .cliMain true (.parse [warn])]
+    (∀ c ∈ h, c.isPublic = true) ∧
+    results toyFns World.fresh h = [.exit 0, .exit 2, .exit 0, .exit 1] ∧
+    (run toyFns World.fresh h).strict = true ∧ (run toyFns World.fresh h).errorCode = 0 ∧
+    (run toyFns World.fresh (h.take 2)).errorCode = 2 ∧
+    (step toyFns (run toyFns World.fresh h) (.parse [warn])).2 = .raised (.undefinedMacro "nope".toList) := by
+  decide +kernel
+
+/-- What the PINNED tree did (`cliMainPinned`: strict mode never put back, exit status = the sticky
+process-wide `error_code`): the same three runs give 0, 2, 2, `strict` stays `False`, and a later API
+parse of the undefined macro warns instead of raising — the result of a public call depended on the
+history.  The model can express, and fail, the property. -/
+theorem C18_cli_main_neg_pinned :
+    let good : Doc := [.entry "misc".toList "a".toList [("title".toList, [.lit "T".toList])]]
+    let warn : Doc := [.entry "misc".toList "a".toList [("title".toList, [.ref "nope".toList])]]
+    let r1 := cliMainPinned toyFns World.fresh false (.parse [good])
+    let r2 := cliMainPinned toyFns r1.1 false (.parse [warn])
+    let r3 := cliMainPinned toyFns r2.1 false (.parse [good])
+    [r1.2, r2.2, r3.2] = [.exit 0, .exit 2, .exit 2] ∧
+    r3.2 ≠ (cliMainPinned toyFns World.fresh false (.parse [good])).2 ∧
+    r3.1.strict = false ∧
+    (step toyFns r3.1 (.parse [warn])).2 ≠ (step toyFns World.fresh (.parse [warn])).2 := by
+  decide +kernel
+
+/-! ## reading filtered by a citation list (`wanted_entries`) -/
+
+/-- A reader that reads filtered by the caller's citation list keeps its OWN set of wanted keys: the
+keys that become wanted while it reads (targets of cross-references of entries it kept) never reach
+another reader — whatever a first filtered (or unfiltered) reader went through, a second one returns
+what it returns in the initial world; the files of one filtered reader accumulate as for every reader. -/
+theorem C18_readers_independent_wanted (F : Fns) (w : World) (hw : CachesInv F w) (hcap : w.captured = none)
+    (c1 c2 : List Str) (fs1 fs2 : List Doc) :
+    (step F (step F w (.parseWanted c1 fs1)).1 (.parseWanted c2 fs2)).2 = (step F w (.parseWanted c2 fs2)).2 ∧
+    (step F (step F w (.parseWanted c1 fs1)).1 (.parse fs2)).2 = (step F w (.parse fs2)).2 ∧
+    (step F (step F w (.capture (.parseWanted c1 fs1))).1 (.capture (.parseWanted c2 fs2))).2
+      = (step F w (.capture (.parseWanted c2 fs2))).2 := by
+  have h1 := run_sim hw hcap [.parseWanted c1 fs1] (by intro c hc; simp at hc; subst hc; rfl)
+  have h2 := run_sim hw hcap [.capture (.parseWanted c1 fs1)] (by intro c hc; simp at hc; subst hc; rfl)
+  exact ⟨(step_sim h1 _).1, (step_sim h1 _).1, (step_sim h2 _).1⟩
+
+/-- cited: only the child `c`.  The reader keeps `c` under the caller's spelling `C`, its parent `p`
+(wanted because `c` refers to it, and it follows `c`) and drops `x`; a second reader with the SAME
+citation list over the parent alone drops it: the first reader's enlarged set did not reach it;
+the undefined macro of the unwanted entry `x` is not reported -/
+theorem C18_readers_independent_wanted_nonvacuous :
+    let child : Cmd := .entry "misc".toList "c".toList [("crossref".toList, [.lit "p".toList])]
+    let parent : Cmd := .entry "misc".toList "p".toList [("note".toList, [.lit "N".toList])]
+    let other : Cmd := .entry "misc".toList "x".toList [("note".toList, [.ref "nope".toList])]
+    let one := (step toyFns World.fresh (.capture (.parseWanted ["C".toList] [[child, other, parent]]))).2
+    let two := (step toyFns (step toyFns World.fresh (.capture (.parseWanted ["C".toList] [[child, other, parent]]))).1
+                 (.capture (.parseWanted ["C".toList] [[parent]]))).2
+    (one.reader?.map fun r => (r.entries.map (·.key), r.wanted)) =
+      some (["C".toList, "p".toList], some ["c".toList, "p".toList]) ∧
+    one.errors? = some [] ∧
+    (two.reader?.map fun r => (r.entries.map (·.key), r.wanted)) = some ([], some ["c".toList]) := by
+  decide +kernel
+
+/-! ## entries accumulate across the files of one reader; key-less entries (proposed fix C18-4) -/
+
+/-- ENTRIES ACCUMULATE: whatever files a reader — ordinary, filtered by citations, or key-less — goes
+through without raising, everything it held before is still there and in the same order (entries,
+preamble), the set of wanted keys only grows, the citation spellings stay, and the number the next
+key-less entry gets never goes back: a key-less entry of a later file is not given the number of a
+key-less entry of an earlier file of the same reader. -/
+theorem C18_reader_accumulates (F : Fns) (persons : Bool) (w w' : World) (r r' : Reader) (ds : List Doc)
+    (h : readFiles F persons w r ds = (w', .ok r')) :
+    r.entries <+: r'.entries ∧ r.preamble <+: r'.preamble ∧ r.unnamed ≤ r'.unnamed ∧
+    (r.wanted = none → r'.wanted = none) ∧
+    (∀ s, r.wanted = some s → ∃ s', r'.wanted = some s' ∧ s <+: s') ∧ r'.citations = r.citations :=
+  let g := readFiles_grows h
+  ⟨g.entries, g.preamble, g.unnamed, g.wantedNone, g.wantedSome, g.citations⟩
+
+/-- a key-less reader over two files (two entries, then one): three entries `unnamed-1 .. unnamed-3`,
+nothing reported -/
+theorem C18_reader_accumulates_nonvacuous :
+    let e (t : String) : Cmd := .keyless "misc".toList [("title".toList, [.lit t.toList])]
+    let one := (step toyFns World.fresh (.capture (.parse [[e "A", e "B"], [e "C"]]))).2
+    (one.reader?.map fun r => (r.entries.map (·.key), r.unnamed)) =
+      some (["unnamed-1".toList, "unnamed-2".toList, "unnamed-3".toList], 4) ∧
+    one.errors? = some [] ∧
+    (∃ w' r', readFiles toyFns true World.fresh (newReader World.fresh) [[e "A", e "B"], [e "C"]] = (w', .ok r') ∧
+      r'.entries.length = 3) := by
+  refine ⟨by decide +kernel, by decide +kernel, _, _, rfl, by decide +kernel⟩
+
+/-- What the PINNED tree did (`Parser.parse_string` set the counter back to 1 for every file): the
+entry of the second file is named `unnamed-1` again, reported as a repeated entry and LOST — the
+entries of the files of one reader did not accumulate. -/
+theorem C18_reader_accumulates_neg_pinned :
+    let e (t : String) : Cmd := .keyless "misc".toList [("title".toList, [.lit t.toList])]
+    let x := readFilesPinned toyFns true { World.fresh with captured := some [] } (newReader World.fresh)
+               [[e "A", e "B"], [e "C"]]
+    x.1.captured = some [.duplicateEntry "unnamed-1".toList] ∧
+    (match x.2 with | .ok r => some (r.entries.map (·.key)) | .error _ => none) =
+      some ["unnamed-1".toList, "unnamed-2".toList] := by
+  decide +kernel
 
 end Pybtex.Props
